@@ -5,38 +5,204 @@
 import PjVerif.Lemmas.Rel
 namespace Pj
 
+/-! ### pigeonhole and chains -/
+
+/-- a duplicate-free list of naturals `< n` has at most `n` elements -/
+theorem nodup_lt_length_le (n : Nat) (l : List Nat) (hn : l.Nodup) (hlt : ∀ x ∈ l, x < n) : l.length ≤ n := by
+  induction n generalizing l with
+  | zero =>
+    cases l with
+    | nil => exact Nat.le_refl 0
+    | cons x xs => exact absurd (hlt x List.mem_cons_self) (Nat.not_lt_zero x)
+  | succ n ih =>
+    have h1 : (l.erase n).length ≤ n := by
+      refine ih (l.erase n) (hn.erase n) ?_
+      intro x hx
+      obtain ⟨hne, hxl⟩ := (List.Nodup.mem_erase_iff hn).mp hx
+      have := hlt x hxl
+      omega
+    have h2 : (l.erase n).length = if n ∈ l then l.length - 1 else l.length := List.length_erase
+    split at h2 <;> omega
+
+/-- `l` is a walk `t → l[0] → l[1] → …` along `next` -/
+def IsPath (next : Uid → List Uid) : Uid → List Uid → Prop
+  | _, [] => True
+  | a, b :: l => b ∈ next a ∧ IsPath next b l
+
+theorem IsPath.reach {next : Uid → List Uid} {t : Uid} {l : List Uid} (h : IsPath next t l) :
+    ∀ x ∈ l, TC (fun a b => b ∈ next a) t x := by
+  induction l generalizing t with
+  | nil => intro x hx; cases hx
+  | cons b l ih =>
+    obtain ⟨hb, hl⟩ := h
+    intro x hx
+    rcases List.mem_cons.mp hx with rfl | hx
+    · exact TC.single hb
+    · exact TC.head (r := fun a b => b ∈ next a) hb (ih hl x hx)
+
+theorem IsPath.nodup {next : Uid → List Uid} (hac : ∀ x, ¬ TC (fun a b => b ∈ next a) x x)
+    {t : Uid} {l : List Uid} (h : IsPath next t l) : (t :: l).Nodup := by
+  induction l generalizing t with
+  | nil => exact List.nodup_cons.mpr ⟨List.not_mem_nil, List.nodup_nil⟩
+  | cons b l ih =>
+    refine List.nodup_cons.mpr ⟨?_, ih h.2⟩
+    intro ht
+    exact hac t (h.reach t ht)
+
+theorem IsPath.lt {next : Uid → List Uid} {n : Nat} (hb : ∀ a b, b ∈ next a → b < n)
+    {t : Uid} {l : List Uid} (h : IsPath next t l) : ∀ x ∈ l, x < n := by
+  induction l generalizing t with
+  | nil => intro x hx; cases hx
+  | cons b l ih =>
+    intro x hx
+    rcases List.mem_cons.mp hx with rfl | hx
+    · exact hb _ _ h.1
+    · exact ih h.2 x hx
+
+/-- a walk along an acyclic relation with targets `< n` has at most `n` steps -/
+theorem IsPath.length_le {next : Uid → List Uid} {n : Nat}
+    (hac : ∀ x, ¬ TC (fun a b => b ∈ next a) x x) (hb : ∀ a b, b ∈ next a → b < n)
+    {t : Uid} {l : List Uid} (h : IsPath next t l) : l.length ≤ n :=
+  nodup_lt_length_le n l (List.nodup_cons.mp (h.nodup hac)).2 (h.lt hb)
+
+/-- … and at most `n - 1` steps when it starts inside the universe -/
+theorem IsPath.length_succ_le {next : Uid → List Uid} {n : Nat}
+    (hac : ∀ x, ¬ TC (fun a b => b ∈ next a) x x) (hb : ∀ a b, b ∈ next a → b < n)
+    {t : Uid} (ht : t < n) {l : List Uid} (h : IsPath next t l) : l.length + 1 ≤ n := by
+  refine nodup_lt_length_le n (t :: l) (h.nodup hac) ?_
+  intro x hx
+  rcases List.mem_cons.mp hx with rfl | hx
+  · exact ht
+  · exact h.lt hb x hx
+
+/-- `mapM` succeeds when the function succeeds on every element -/
+theorem mapM_total {β γ : Type} (g : β → Option γ) (l : List β) (h : ∀ a ∈ l, ∃ b, g a = some b) :
+    ∃ r, l.mapM g = some r := by
+  induction l with
+  | nil => exact ⟨[], by simp⟩
+  | cons x xs ih =>
+    obtain ⟨b, hb⟩ := h x List.mem_cons_self
+    obtain ⟨bs, hbs⟩ := ih (fun a ha => h a (List.mem_cons_of_mem _ ha))
+    exact ⟨b :: bs, (mapM_some_cons g x xs _).mpr ⟨b, bs, hb, hbs, rfl⟩⟩
+
+/-- `descF` succeeds when the fuel exceeds the length of every walk from `t` -/
+theorem descF_total_of_paths (next : Uid → List Uid) (f : Nat) (t : Uid)
+    (h : ∀ l, IsPath next t l → l.length < f) : ∃ r, descF next f t = some r := by
+  induction f generalizing t with
+  | zero => exact absurd (h [] trivial) (Nat.lt_irrefl 0)
+  | succ f ih =>
+    have hm : ∃ ll, (next t).mapM (fun c => (descF next f c).map (fun r => c :: r)) = some ll := by
+      refine mapM_total _ _ ?_
+      intro c hc
+      obtain ⟨r, hr⟩ := ih c (fun l hl => Nat.lt_of_succ_lt_succ (h (c :: l) ⟨hc, hl⟩))
+      exact ⟨c :: r, by rw [hr]; rfl⟩
+    obtain ⟨ll, hll⟩ := hm
+    exact ⟨ll.flatten, by rw [descF, hll]; rfl⟩
+
 /-- generic: a walk along an acyclic `next` relation whose targets are all `< n` needs at most `n + 1` levels -/
 theorem descF_total_of_acyclic (next : Uid → List Uid) (n : Nat)
     (hac : ∀ x, ¬ TC (fun a b => b ∈ next a) x x) (hb : ∀ a b, b ∈ next a → b < n) (t : Uid) :
-    ∃ l, descF next (n + 1) t = some l := by
-  sorry
+    ∃ l, descF next (n + 1) t = some l :=
+  descF_total_of_paths next (n + 1) t (fun _ hl => Nat.lt_succ_of_le (hl.length_le hac hb))
 
 theorem descF_children_total (s : G) (hw : WF s) (hb : Bounded s) (t : Uid) :
     ∃ l, descF s.children s.fuel t = some l := by
-  sorry
+  refine descF_total_of_acyclic s.children s.n ?_ (fun a b h => (hb.children a b h).2) t
+  intro x hx
+  exact hw.forest x ((TC_child_iff s hw.listed x x).mp hx)
 
 theorem subtreeF_children_total (s : G) (hw : WF s) (hb : Bounded s) (t : Uid) :
     ∃ l, subtreeF s.children s.fuel t = some l := by
-  sorry
+  obtain ⟨l, hl⟩ := descF_children_total s hw hb t
+  exact ⟨t :: l, by rw [subtreeF, hl]; rfl⟩
 
 theorem descF_preds_total (s : G) (hw : WF s) (hb : Bounded s) (t : Uid) :
     ∃ l, descF s.preds s.fuel t = some l := by
-  sorry
+  refine descF_total_of_acyclic s.preds s.n ?_ (fun a b h => (hb.preds a b h).2) t
+  intro x hx
+  exact hw.dag x (TC.flip (r := dep s) hx)
 
 theorem descF_succs_total (s : G) (hw : WF s) (hb : Bounded s) (t : Uid) :
     ∃ l, descF s.succs s.fuel t = some l := by
-  sorry
+  refine descF_total_of_acyclic s.succs s.n ?_ (fun a b h => (hb.succs a b h).2) t
+  intro x hx
+  exact hw.dag x (TC.mono (r' := dep s) (fun a b h => (hw.sym a b).mpr h) hx)
+
+/-! ### the parent walks -/
+
+/-- the parent function as a `next` relation -/
+def parNext (s : G) : Uid → List Uid := fun x => (s.parent x).toList
+
+theorem mem_parNext (s : G) (a b : Uid) : b ∈ parNext s a ↔ s.parent a = some b := by
+  unfold parNext; exact Option.mem_toList
+
+theorem parNext_acyclic (s : G) (hw : WF s) : ∀ x, ¬ TC (fun a b => b ∈ parNext s a) x x := by
+  intro x hx
+  exact hw.forest x (TC.mono (r' := par s) (fun a b h => (mem_parNext s a b).mp h) hx)
+
+theorem parNext_lt (s : G) (hb : Bounded s) : ∀ a b, b ∈ parNext s a → b < s.n :=
+  fun a b h => (hb.parent a b ((mem_parNext s a b).mp h)).2
+
+theorem rootF_total_of_paths (s : G) (f : Nat) (t : Uid)
+    (h : ∀ l, IsPath (parNext s) t l → l.length < f) : ∃ r, rootF s f t = some r := by
+  induction f generalizing t with
+  | zero => exact absurd (h [] trivial) (Nat.lt_irrefl 0)
+  | succ f ih =>
+    rw [rootF]
+    cases hp : s.parent t with
+    | none => exact ⟨t, rfl⟩
+    | some p =>
+      exact ih p (fun l hl => Nat.lt_of_succ_lt_succ (h (p :: l) ⟨(mem_parNext s t p).mpr hp, hl⟩))
 
 theorem rootF_total (s : G) (hw : WF s) (hb : Bounded s) (t : Uid) :
-    ∃ r, rootF s s.fuel t = some r := by
-  sorry
+    ∃ r, rootF s s.fuel t = some r :=
+  rootF_total_of_paths s (s.n + 1) t
+    (fun _ hl => Nat.lt_succ_of_le (hl.length_le (parNext_acyclic s hw) (parNext_lt s hb)))
 
-theorem ancF_total (s : G) (hw : WF s) (hb : Bounded s) (p : Option Uid) :
-    ∃ l, ancF s s.fuel p = some l := by
-  sorry
+theorem ancF_total_of_paths (s : G) (f : Nat) (o : Option Uid)
+    (h : ∀ p, o = some p → ∀ l, IsPath (parNext s) p l → l.length + 1 ≤ f) :
+    ∃ r, ancF s (f + 1) o = some r := by
+  induction f generalizing o with
+  | zero =>
+    cases o with
+    | none => exact ⟨[], rfl⟩
+    | some p => exact absurd (h p rfl [] trivial) (by decide)
+  | succ f ih =>
+    cases o with
+    | none => exact ⟨[], rfl⟩
+    | some p =>
+      rw [ancF]
+      cases hh : s.hidden p with
+      | true => exact ⟨[], by simp⟩
+      | false =>
+        rw [ancF_pubParent]
+        obtain ⟨r, hr⟩ := ih (s.parent p) (fun q hq l hl =>
+          Nat.le_of_succ_le_succ (h p rfl (q :: l) ⟨(mem_parNext s p q).mpr hq, hl⟩))
+        exact ⟨p :: r, by rw [hr]; simp⟩
+
+/-- corrected form of `ancF_total`: the start of the walk is an object of the universe (or `none`) -/
+theorem ancF_total_of_lt (s : G) (hw : WF s) (hb : Bounded s) (p : Option Uid)
+    (hp : ∀ u, p = some u → u < s.n) : ∃ l, ancF s s.fuel p = some l :=
+  ancF_total_of_paths s s.n p
+    (fun u hu _ hl => hl.length_succ_le (parNext_acyclic s hw) (parNext_lt s hb) (hp u hu))
+
+/-- the form in which the model calls `ancF`: started at the raw parent of a task -/
+theorem ancF_parent_total (s : G) (hw : WF s) (hb : Bounded s) (q : Uid) :
+    ∃ l, ancF s s.fuel (s.parent q) = some l :=
+  ancF_total_of_lt s hw hb (s.parent q) (fun u hu => (hb.parent q u hu).2)
 
 theorem hasIdIntersection_total (s : G) (hw : WF s) (hb : Bounded s) (p : Uid) (chs : List Uid) :
     ∃ b, hasIdIntersection s p chs = some b := by
-  sorry
+  obtain ⟨root, hroot⟩ := rootF_total s hw hb p
+  obtain ⟨tree, htree⟩ := subtreeF_children_total s hw hb root
+  obtain ⟨subs, hsubs⟩ := mapM_total (subtreeF s.children s.fuel) chs
+    (fun a _ => subtreeF_children_total s hw hb a)
+  unfold hasIdIntersection
+  simp only [hroot, htree, hsubs, bind, Option.bind, pure]
+  split
+  · exact ⟨_, rfl⟩
+  · split
+    · exact ⟨_, rfl⟩
+    · exact ⟨_, rfl⟩
 
 end Pj
